@@ -265,6 +265,7 @@ var templates = []string{
 	"/d 1 dict def 60 { /d << /x d /y d >> def } repeat d length",
 	"errordict begin typecheck", "errordict /undefined get exec", "errordict begin rangecheck stackunderflow end",
 	"errordict {exch pop exec} forall", "errordict /typecheck get dup exec exec",
+	"{ } loop", "{ 1 pop } loop", "/a {a} def a", "/a {1 pop a} def a", "0 1 9223372036854775806 {pop} for", "9223372036854775807 {} repeat",
 	"{dup exec 1} dup exec", "{1 dict begin} loop", "{1} loop", "{dup} loop", "0 1 9223372036854775807 {} for",
 	"0 0 1 {} for", "9223372036854775807 1 9223372036854775807 {} for", "-1 -1 -9223372036854775808 {pop} for",
 	"1 2 9223372036854775807 copy", "(abc) 9223372036854775807 (de) putinterval", "[1 2] 9223372036854775807 [3] putinterval",
